@@ -43,14 +43,15 @@
    selects the production set: "mini" / "core" (four / eight productions, one per construct,
    for exhaustive multi-article enumeration), "pairs" (whole articles  [heading] text X heading
    Y text  for EVERY ordered pair (X, Y) of block kinds: the last block of a section against
-   the first block of the next one, plus every ordered pair of adjacent figures), "full" (every variant once, exhaustive for single articles), "rich"
+   the first block of the next one, plus every ordered pair of adjacent figures), "runs3" / "runs5all" (whole articles around a
+   run of k <= 3 / 5 consecutive figures, galleries or tables, for every k x follower x preceder), "full" (every variant once, exhaustive for single articles), "rich"
    (parameterised productions, for -simulate). *)
 EXTENDS Naturals, Sequences, FiniteSets, TLC, Json
 
 CONSTANTS MaxArts,      \* 1..4
           MaxBlocks,    \* blocks per article
           MinBlocks,    \* 1 normally; = MaxBlocks to enumerate exactly-k-block articles
-          Palette,      \* "mini" | "core" | "full" | "pairs" | "rich"
+          Palette,      \* "mini" | "core" | "full" | "pairs" | "pairsall" | "runs3" | "runs5all" | "rich"
           Chapters,     \* BOOLEAN: chapter layouts enumerated (FALSE: no chapters)
           EmitCases     \* TRUE: print every finished collection as JSON (P-ENUM)
 
@@ -88,7 +89,9 @@ LE(n)          == [t |-> "le", w |-> n]
 RF(n)          == [t |-> "ref", w |-> n]
 TC(tp, n)      == [t |-> "tc", tp |-> tp, w |-> n]
 IM(i, n)       == [t |-> "img", i |-> i, w |-> n]
-FG(i, k, n, s) == [t |-> "fig", i |-> i, k |-> k, w |-> n, s |-> s]
+FG(i, k, n, s) == [t |-> "fig", i |-> i, k |-> k, w |-> n, s |-> s, tp |-> ""]
+\* a figure whose caption is an inline template call with the word as argument
+FGT(i, k, n, tp) == [t |-> "fig", i |-> i, k |-> k, w |-> n, s |-> "n", tp |-> tp]
 FigKinds == {"thumb", "frame", "left", "right", "center"}   \* "center" does not float
 
 \* blocks
@@ -122,6 +125,8 @@ DenItem(x, c) ==
                       \o [k \in 1..Len(TplWords(x.tp)) |-> DW(TplWords(x.tp)[k], c \o "/template-word-" \o x.tp)]
     [] x.t = "img" -> <<>>                                    \* alt text only
     [] x.t = "fig" -> <<DW(x.w, c \o "/figure-caption-" \o x.k)>>
+                      \o (IF x.tp = "" THEN <<>> ELSE
+                          [k \in 1..Len(TplWords(x.tp)) |-> DW(TplWords(x.tp)[k], c \o "/figure-caption-template-word-" \o x.tp)])
 
 DenItems(xs, c) == Flat([k \in 1..Len(xs) |-> DenItem(xs[k], c)])
 
@@ -166,7 +171,7 @@ ItemsBlock(b) ==
 ItemsOf(bs)  == UNION {ItemsBlock(bs[k]) : k \in 1..Len(bs)}
 IdsOf(bs)    == {x.w : x \in ItemsOf(bs)}
 AltsOf(bs)   == {x.w : x \in {y \in ItemsOf(bs) : y.t = "img"}}
-TplsOf(bs)   == UNION {TplDeps(x.tp) : x \in {y \in ItemsOf(bs) : y.t = "tc"}}
+TplsOf(bs)   == UNION {TplDeps(x.tp) : x \in {y \in ItemsOf(bs) : y.t = "tc" \/ (y.t = "fig" /\ y.tp # "")}}
 ImgsOf(bs)   == {x.i : x \in {y \in ItemsOf(bs) : y.t \in {"img", "fig", "gi"}}}
 
 -----------------------------------------------------------------------------
@@ -299,6 +304,50 @@ PairsAll(n) ==
   { PairArticle(BlockKinds[i], BlockKinds[j], Levels[v], lead, n) :
       i \in 1..Len(BlockKinds), j \in 1..Len(BlockKinds), v \in 1..Len(Levels), lead \in BOOLEAN }
 
+\* a whole article around a RUN of k consecutive blocks of one kind (figures of mixed float kinds
+\* on the same or on different stored images, optionally with a template call as last caption;
+\* one-image galleries; tables):   preceder  run  follower
+RunKinds  == <<"fig", "gallery", "table">>
+Followers == <<"end", "head", "table", "gallery", "pre", "para", "list">>
+Preceders == <<"para", "head", "table">>
+Mixes     == <<"r", "l", "c", "x">>             \* all right / all left / all centred / rotating
+FigKindAt(mix, j) == CASE mix = "r" -> "thumb" [] mix = "l" -> "left" [] mix = "c" -> "center"
+                       [] mix = "x" -> <<"thumb", "left", "center">>[((j - 1) % 3) + 1]
+RunBlocks(rk, k, mix, same, tplast, n) ==
+  CASE rk = "fig"     -> [j \in 1..k |-> Fig(IF tplast /\ j = k
+                                              THEN FGT(IF same THEN 1 ELSE ((j - 1) % 3) + 1, FigKindAt(mix, j), n + j - 1, "Tinl")
+                                              ELSE FG(IF same THEN 1 ELSE ((j - 1) % 3) + 1, FigKindAt(mix, j), n + j - 1, "n"))]
+    [] rk = "gallery" -> [j \in 1..k |-> Gallery(0, 0, <<GI(IF same THEN 1 ELSE ((j - 1) % 3) + 1, n + j - 1, "n")>>)]
+    [] rk = "table"   -> [j \in 1..k |-> Table(<<>>, Grid(n + 2 * (j - 1), 1, 2, "none"))]
+RunUsed(rk, k) == IF rk = "table" THEN 2 * k ELSE k
+\* "every section has body text": a run directly after a heading cannot also end the section
+PrecederOf(p, f) == IF p = "head" /\ f \in {"end", "head"} THEN "para" ELSE p
+RunArticle(rk, k, f, p0, mix, same, tplast, n) ==
+  LET p    == PrecederOf(p0, f)
+      pre  == CASE p = "para"  -> [bl |-> <<Para(<<W(n, "n")>>)>>, u |-> 1]
+                [] p = "head"  -> [bl |-> <<Para(<<W(n, "n")>>), Hd(2, <<W(n + 1, "n")>>)>>, u |-> 2]
+                [] p = "table" -> [bl |-> <<Table(<<>>, Grid(n, 1, 2, "none"))>>, u |-> 2]
+      m    == n + pre.u
+      run  == RunBlocks(rk, k, mix, same, tplast, m)
+      q    == m + RunUsed(rk, k)
+      fol  == CASE f = "end"     -> [bl |-> <<>>, u |-> 0]
+                [] f = "head"    -> [bl |-> <<Hd(3, <<W(q, "n")>>), Para(<<W(q + 1, "n")>>)>>, u |-> 2]
+                [] f = "gallery" -> [bl |-> <<KB("gallery", q).blk, Para(<<W(q + 1, "n")>>)>>, u |-> 2]
+                [] OTHER         -> [bl |-> <<KB(f, q).blk>>, u |-> KB(f, q).used] IN
+  PS(pre.bl \o run \o fol.bl, pre.u + RunUsed(rk, k) + fol.u)
+
+\* every (run kind, k, follower, preceder); the variant (float mix, same/different image, template
+\* caption) cycles when ~all, all variants otherwise
+Runs(maxk, all, n) ==
+  { RunArticle(RunKinds[r], k, Followers[fi], Preceders[pi], Mixes[((k + 2 * fi + 3 * pi) % 4) + 1],
+               (k + fi + pi) % 2 = 0, (k + fi + 2 * pi) % 3 = 0, n) :
+      r \in 1..3, k \in 1..maxk, fi \in 1..Len(Followers), pi \in 1..Len(Preceders) }
+  \cup (IF all THEN
+         { RunArticle("fig", k, Followers[fi], Preceders[pi], Mixes[mi], same, tplast, n) :
+             k \in 1..maxk, fi \in 1..Len(Followers), pi \in 1..Len(Preceders), mi \in 1..Len(Mixes),
+             same \in BOOLEAN, tplast \in BOOLEAN }
+        ELSE {})
+
 \* parameterised productions for random composition (-simulate)
 CellChoices(n) ==
   { Cell(h, <<Mk(k, n)>>, <<>>) : h \in BOOLEAN, k \in {"n", "b", "i", "ll", "le", "ref", "Tinl", "Tbold"} }
@@ -316,12 +365,13 @@ Rich(n) ==
            a \in CellChoices(n), b \in {PlainCell(n + 1), HeadCell(n + 1)}, c \in {PlainCell(n + 2), FigCell(2, n + 2, "n")} }
   \cup { P(Table(<<W(n, "n")>>, <<<<a, b, PlainCell(n + 3)>>>>), 4) : a \in CellChoices(n + 1), b \in SomeCells(n + 2) }
   \cup { P(Fig(FG(i, k, n, s)), 1) : i \in Images, k \in FigKinds, s \in {"n", "b", "i"} }
+  \cup { PS(RunBlocks("fig", k, Mixes[mi], same, tplast, n), k) : k \in 2..5, mi \in 1..Len(Mixes), same \in BOOLEAN, tplast \in BOOLEAN }
   \cup { SectionOf(l, BlockKinds[i], BlockKinds[j], n) : l \in 2..4, i \in 1..Len(BlockKinds), j \in 1..Len(BlockKinds) }
   \cup { P(Gallery(IF hc THEN n + m ELSE 0, pr, [k \in 1..m |-> GI(((k + off) % 3) + 1, n + k - 1, "n")]),
            IF hc THEN m + 1 ELSE m) :
            m \in 1..4, pr \in {0, 1, 2, 3}, off \in 0..2, hc \in BOOLEAN }
 
-Blocks(n) == CASE Palette = "pairs" -> Pairs(n) [] Palette = "pairsall" -> PairsAll(n) [] Palette = "mini" -> Mini(n) [] Palette = "core" -> Core(n) [] Palette = "full" -> Full(n) [] Palette = "rich" -> Rich(n)
+Blocks(n) == CASE Palette = "runs3" -> Runs(3, FALSE, n) [] Palette = "runs5all" -> Runs(5, TRUE, n) [] Palette = "pairs" -> Pairs(n) [] Palette = "pairsall" -> PairsAll(n) [] Palette = "mini" -> Mini(n) [] Palette = "core" -> Core(n) [] Palette = "full" -> Full(n) [] Palette = "rich" -> Rich(n)
 
 -----------------------------------------------------------------------------
 Plans  == UNION {[1..k -> MinBlocks..MaxBlocks] : k \in 1..MaxArts}
